@@ -614,10 +614,16 @@ func c07RealTrigger(t *testing.T, st *stats) {
 }
 
 func TestC07(t *testing.T) {
-	st := newStats(t, "C07", "cases = two-node worlds (A truncates, twin B never does) with a generated region near genesis (proposals at either node, rogue side branches, delayed delivery, boundary amounts), >=1001 filler vertices, the real truncate, optionally a late vertex on an old parent (tip not descending from the cut) and a second truncation after 1001 more vertices, then re-submission of moved vertices/transactions and follow-up proposals/gossip offered to both nodes; oracle = per-tip per-address balance equality across the cut, by-hash reads identical, moved == newly checkpointed and ancestor-closed, checkpoint funds == net flow of checkpointed vertices, re-submission refused with unchanged snapshot, twin accepts what A creates; non-trivial = at least one spice-transfer vertex was moved to storage; distinct by operation-log fingerprint")
+	st := newStats(t, "C07", "cases = two-node worlds (A truncates, twin B never does) with a generated region near genesis (proposals at either node, rogue side branches, delayed delivery, boundary amounts), >=1001 filler vertices, the real truncate, optionally a late vertex on an old parent (tip not descending from the cut) and a second truncation after 1001 more vertices, then re-submission of moved vertices/transactions and follow-up proposals/gossip offered to both nodes; plus, per process, the real truncate racing with balance readers of untouched wallets and with proposers of an overdrawing spend (every answer must equal the pre-truncation balance, the overdraft must never be confirmed); oracle = per-tip per-address balance equality across the cut, by-hash reads identical, moved == newly checkpointed and ancestor-closed, checkpoint funds == net flow of checkpointed vertices, re-submission refused with unchanged snapshot, twin accepts what A creates; non-trivial = at least one spice-transfer vertex was moved to storage; distinct by operation-log fingerprint")
 	sim.Chdir(workDir(t))
 	if shard() == 0 || (thorough() && shard() < 4) {
 		c07RealTrigger(t, st)
+	}
+	for i := 0; i < scale(1, 4); i++ {
+		if outOfBudget(st) {
+			break
+		}
+		c07Race(t, st, i)
 	}
 	caseNo := 0
 	rapid.Check(t, func(rt *rapid.T) {
